@@ -22,6 +22,11 @@ type recorder struct {
 	arena    []byte
 	readOps  int
 	exceeded int
+
+	// schedule injection: at the injectAt-th read of the round, inject() is run
+	// in the worker's goroutine (between two reads), see caseSpec.NotifyAt
+	injectAt int
+	inject   func()
 }
 
 type recCall struct {
@@ -37,6 +42,8 @@ func (r *recorder) reset() {
 	r.arena = r.arena[:0]
 	r.readOps = 0
 	r.exceeded = 0
+	r.injectAt = 0
+	r.inject = nil
 }
 
 func (r *recorder) In(src pipeline.SourceID, name string, offsets pipeline.Offsets, data []byte, isNew bool) {
@@ -47,7 +54,12 @@ func (r *recorder) In(src pipeline.SourceID, name string, offsets pipeline.Offse
 		data[r.cfg.M] = '\n'
 	}
 }
-func (r *recorder) ReadOp()             { r.readOps++ }
+func (r *recorder) ReadOp() {
+	r.readOps++
+	if r.inject != nil && r.readOps == r.injectAt {
+		r.inject()
+	}
+}
 func (r *recorder) SizeExceeded(string) { r.exceeded++ }
 
 func (r *recorder) callsOf(src pipeline.SourceID) []call {
@@ -91,6 +103,10 @@ type groupResult struct {
 	ReadOps  int
 	Exceeded int
 	Reopened int
+	// Shift[k]: by how much the write notification injected into round k of
+	// case 0 changed the job's read position (must be 0: the file only grew)
+	Shift    []int64
+	Injected int
 	Panic    string
 	PanicAt  int // round
 	Err      error
@@ -121,6 +137,7 @@ func (s *session) runGroup(specs []*caseSpec) *groupResult {
 		}
 		res.Rounds[i] = make([][]call, len(sp.Parts))
 		p := s.path(i)
+		// (truncating in place; a new inode per case is not needed and unlink+create is slower)
 		if err := os.WriteFile(p, sp.Parts[0], 0o644); err != nil {
 			res.Err = err
 			return res
@@ -178,6 +195,21 @@ func (s *session) runGroup(specs []*caseSpec) *groupResult {
 			}
 		}
 		s.rec.reset()
+		res.Shift = append(res.Shift, 0)
+		if len(specs) == 1 && k < len(specs[0].NotifyAt) && specs[0].NotifyAt[k] > 0 {
+			// a write notification for this file is processed by the provider
+			// (watcher goroutine in production) between two reads of this round
+			kk := k
+			s.rec.injectAt = specs[0].NotifyAt[k]
+			s.rec.inject = func() {
+				before := jobs[0].State().CurOffset
+				if err := jobs[0].ResumeNotify(true); err != nil {
+					res.Err = err
+				}
+				res.Shift[kk] = jobs[0].State().CurOffset - before
+				res.Injected++
+			}
+		}
 		if p := s.env.Run(s.cfg.Buf); p != "" {
 			res.Panic = p
 			res.PanicAt = k
